@@ -14,16 +14,6 @@ def LOp.isClear : LOp → Bool
   | .clear => true
   | _ => false
 
-/-- the effect of the last operation in `ops` that touches `k` (`none` = no operation touches it) -/
-def lastOn (k : Key) : List LOp → Option (Option Val)
-  | [] => none
-  | op :: r => match lastOn k r with
-    | some x => some x
-    | none => match op with
-      | .put k' v => if k' = k then some (some v) else none
-      | .del k' => if k' = k then some none else none
-      | .clear => none
-
 theorem applyOp_get (m : KMap) (op : LOp) (hc : op.isClear = false) (k : Key) :
     (applyOp m op).get k = match (lastOn k [op]) with | some x => x | none => m.get k := by
   cases op with
@@ -150,45 +140,486 @@ theorem replayKs_abs (k : KsL) (recs : List Rec) :
       have : stepKs r k = k := by simp [stepKs, Ne.symm hr]
       rw [this]
 
-/-- coverage: the journal records of a keyspace end with everything it holds in memory, and either
-    contain a clear followed by *everything* since, or are clear-free and overlap the tables in a
-    suffix -/
-def Cov (k : KsL) (rk : List Rec) : Prop :=
-  (∀ r ∈ k.tables ++ k.sealedMem ++ k.mem, r.op.isClear = false) ∧
-  ((∃ A c, rk = A ++ [c] ++ (k.tables ++ k.sealedMem ++ k.mem) ∧ c.op = .clear) ∨
-   ((∀ r ∈ rk, r.op.isClear = false) ∧ ∃ Z Y1, k.tables = Z ++ Y1 ∧ rk = Y1 ++ k.sealedMem ++ k.mem))
+end Fjall.Db
 
-/-- **recovery of one keyspace reproduces its content** -/
-theorem recover_ks_abs (k : KsL) (recs : List Rec) (h : Cov k (recs.filter fun r => r.ks = k.id)) :
-    (replayKs { k with sealedMem := [], mem := [] } recs).abs.Equiv k.abs := by
-  rw [replayKs_abs]
-  obtain ⟨hcf, hcase⟩ := h
-  simp only
-  generalize (recs.filter fun r => r.ks = k.id) = rk at hcase
-  have habs0 : ({ k with sealedMem := [], mem := [] } : KsL).abs = applyAll [] (opsOf k.tables) := by
+namespace Fjall.Db
+open Fjall Fjall.Spec
+
+/-! ### keys whose newest operation is a put; dropping operations that are not deletes -/
+
+def LOp.isDel : LOp → Bool
+  | .del _ => true
+  | _ => false
+
+theorem noLive_spec (L : List LOp) (h : noLive L = true) (x : Key) (v : Val) : lastOn x L ≠ some (some v) := by
+  induction L with
+  | nil => simp [lastOn]
+  | cons op r ih =>
+    simp only [noLive, Bool.and_eq_true] at h
+    have ih' := ih h.1
+    simp only [lastOn]
+    cases hl : lastOn x r with
+    | some e => simpa [hl] using ih'
+    | none =>
+      simp only
+      cases op with
+      | put k' v' =>
+        simp only
+        split
+        · rename_i hk
+          have := h.2
+          simp only [hk, hl] at this
+          simp at this
+        · simp
+      | del k' => simp only; split <;> simp
+      | clear => simp
+
+theorem noLive_of_spec (L : List LOp) (h : ∀ x v, lastOn x L ≠ some (some v)) : noLive L = true := by
+  induction L with
+  | nil => rfl
+  | cons op r ih =>
+    simp only [noLive, Bool.and_eq_true]
+    refine ⟨ih fun x v hx => h x v (by simp [lastOn, hx]), ?_⟩
+    cases op with
+    | put k v =>
+      simp only
+      cases hl : lastOn k r with
+      | some e => rfl
+      | none =>
+        exfalso
+        exact h k v (by simp [lastOn, hl])
+    | del k => rfl
+    | clear => rfl
+
+theorem noLive_suffix (a b : List LOp) (h : noLive (a ++ b) = true) : noLive b = true := by
+  apply noLive_of_spec
+  intro x v hx
+  exact noLive_spec _ h x v (by rw [lastOn_append, hx])
+
+theorem lastOn_filter_none (L : List Rec) (q : Rec → Bool) (x : Key)
+    (h : lastOn x (opsOf L) = none) : lastOn x (opsOf (L.filter q)) = none := by
+  induction L with
+  | nil => rfl
+  | cons a r ih =>
+    simp only [opsOf, List.map_cons, lastOn] at h
+    cases hl : lastOn x (r.map (·.op)) with
+    | some e => simp [hl] at h
+    | none =>
+      simp only [hl] at h
+      have ih' := ih (by simpa [opsOf] using hl)
+      simp only [List.filter]
+      split
+      · simp only [opsOf, List.map_cons, lastOn]
+        simp only [opsOf] at ih'
+        rw [ih']
+        exact h
+      · exact ih'
+
+theorem lastOn_filter_del (L : List Rec) (q : Rec → Bool) (x : Key)
+    (hq : ∀ r ∈ L, r.op.isDel = true → q r = true)
+    (h : lastOn x (opsOf L) = some none) : lastOn x (opsOf (L.filter q)) = some none := by
+  induction L with
+  | nil => simp [opsOf, lastOn] at h
+  | cons a r ih =>
+    simp only [opsOf, List.map_cons, lastOn] at h
+    cases hl : lastOn x (r.map (·.op)) with
+    | some e =>
+      simp only [hl] at h
+      have ih' := ih (fun r' hr' => hq r' (by simp [hr'])) (by simp only [opsOf, hl]; exact h)
+      simp only [List.filter]
+      split
+      · simp only [opsOf, List.map_cons, lastOn]
+        simp only [opsOf] at ih'
+        rw [ih']
+      · exact ih'
+    | none =>
+      simp only [hl] at h
+      have hn := lastOn_filter_none r q x (by simpa [opsOf] using hl)
+      -- `a` is a delete of `x`
+      cases hop : a.op with
+      | put k' v' => simp only [hop] at h; split at h <;> simp at h
+      | clear => simp [hop] at h
+      | del k' =>
+        simp only [hop] at h
+        have hqa : q a = true := hq a (by simp) (by simp [hop, LOp.isDel])
+        simp only [List.filter, hqa, opsOf, List.map_cons, lastOn, hop]
+        simp only [opsOf] at hn
+        rw [hn]
+        exact h
+
+theorem noLive_filter (L : List Rec) (q : Rec → Bool)
+    (hq : ∀ r ∈ L, r.op.isDel = true → q r = true) (h : noLive (opsOf L) = true) :
+    noLive (opsOf (L.filter q)) = true := by
+  apply noLive_of_spec
+  intro x v hx
+  cases hl : lastOn x (opsOf L) with
+  | none => rw [lastOn_filter_none L q x hl] at hx; simp at hx
+  | some e =>
+    cases e with
+    | some v' => exact noLive_spec _ h x v' hl
+    | none => rw [lastOn_filter_del L q x hq hl] at hx; simp at hx
+
+/-- **re-applying the journaled part of a table segment whose live entries are all tombstones
+    changes nothing** -/
+theorem lastOn_refilter (L : List Rec) (q : Rec → Bool) (x : Key)
+    (hq : ∀ r ∈ L, r.op.isDel = true → q r = true) (h : noLive (opsOf L) = true) :
+    lastOn x (opsOf (L ++ L.filter q)) = lastOn x (opsOf L) := by
+  simp only [opsOf, List.map_append]
+  rw [lastOn_append]
+  cases hf : lastOn x ((L.filter q).map (·.op)) with
+  | none => rfl
+  | some e =>
+    simp only
+    cases hl : lastOn x (opsOf L) with
+    | none =>
+      have := lastOn_filter_none L q x hl
+      simp only [opsOf] at this; rw [this] at hf; simp at hf
+    | some e' =>
+      cases e' with
+      | some v' => exact absurd hl (noLive_spec _ h x v')
+      | none =>
+        have := lastOn_filter_del L q x hq hl
+        simp only [opsOf] at this hl; rw [this] at hf
+        rw [hl, ← hf]
+
+/-! ### seqno order -/
+
+def SeqSorted (L : List Rec) : Prop := L.Pairwise fun a b => a.seqno ≤ b.seqno
+
+theorem above_mono (p : Option Nat) (a b : Rec) (h : a.seqno ≤ b.seqno) (ha : above p a = true) : above p b = true := by
+  cases p with
+  | none => rfl
+  | some p => simp only [above, decide_eq_true_eq] at ha ⊢; omega
+
+/-- in a seqno-sorted list the records above a threshold form a suffix -/
+theorem sorted_split (L : List Rec) (p : Option Nat) (h : SeqSorted L) :
+    L = L.filter (fun r => !above p r) ++ L.filter (above p) := by
+  induction L with
+  | nil => rfl
+  | cons a r ih =>
+    have ⟨h1, h2⟩ := List.pairwise_cons.mp h
+    by_cases ha : above p a = true
+    · have hall : ∀ b ∈ r, above p b = true := fun b hb => above_mono p a b (h1 b hb) ha
+      have e1 : r.filter (fun r => !above p r) = [] := by
+        simp only [List.filter_eq_nil_iff]; intro b hb; simp [hall b hb]
+      have e2 : r.filter (above p) = r := by
+        simp only [List.filter_eq_self]; exact hall
+      simp [List.filter, ha, e1, e2]
+    · have ha' : above p a = false := by simpa using ha
+      simp only [List.filter, ha', Bool.not_false, List.cons_append]
+      congr 1
+      exact ih h2
+
+theorem filter_above_all (L : List Rec) (p : Option Nat) (h : ∀ r ∈ L, above p r = true) : L.filter (above p) = L := by
+  simp only [List.filter_eq_self]; exact h
+
+theorem filter_above_none (L : List Rec) (p : Option Nat) (h : ∀ r ∈ L, above p r = false) : L.filter (above p) = [] := by
+  simp only [List.filter_eq_nil_iff]; intro r hr; simp [h r hr]
+
+end Fjall.Db
+
+namespace Fjall.Db
+open Fjall Fjall.Spec
+
+/-! ### coverage invariant of one keyspace against its journal records -/
+
+/-- `rk` = the journal's records of this keyspace.  After the last `clear` (if any) they are: the
+    journaled part of what the tables reflect (`F1 ++ Y`), then what only the memtables hold (`N`);
+    the memtables may also hold a stale re-replayed tail `Y` of the tables' part. -/
+structure Cov (k : KsL) (rk : List Rec) : Prop where
+  jr : ∀ r ∈ rk, r.ing = false
+  noClearT : ∀ r ∈ k.tables, r.op.isClear = false
+  ingPut : ∀ r ∈ k.tables, r.ing = true → r.op.isDel = false
+  sortedJ : SeqSorted rk
+  sortedT : SeqSorted k.tables
+  sealedLt : ∀ s ∈ k.sealedMem, ∀ m ∈ k.mem, s.seqno < m.seqno
+  persLe : ∀ p, k.persisted = some p → ∃ t ∈ k.tables, p ≤ t.seqno
+  persMem : ∀ m ∈ k.sealedMem ++ k.mem, above k.persisted m = true
+  phys : k.physOk = true
+  struct : ∃ A F1 Y N, rk = A ++ (F1 ++ Y ++ N) ∧ k.tables.filter (fun r => !r.ing) = F1 ++ Y ∧
+      k.sealedMem ++ k.mem = Y ++ N ∧ (∀ r ∈ F1 ++ Y ++ N, r.op.isClear = false) ∧
+      (∀ t ∈ k.tables, ∀ m ∈ N, t.seqno < m.seqno) ∧
+      (A = [] ∨ ∃ A' c, A = A' ++ [c] ∧ c.op = .clear ∧ ∀ t ∈ k.tables, c.seqno ≤ t.seqno)
+
+/-- records of other keyspaces are skipped -/
+theorem replayKs_filter (k : KsL) (recs : List Rec) :
+    replayKs k recs = replayKs k (recs.filter fun r => r.ks = k.id) := by
+  induction recs generalizing k with
+  | nil => rfl
+  | cons r rs ih =>
+    by_cases hr : r.ks = k.id
+    · simp only [List.filter, hr, decide_true, replayKs, List.foldl_cons]
+      have := ih (stepKs r k)
+      simp only [replayKs, stepKs_id] at this
+      exact this
+    · simp only [List.filter, hr, decide_false, replayKs, List.foldl_cons]
+      have hs : stepKs r k = k := by simp [stepKs, Ne.symm hr]
+      rw [hs]
+      exact ih k
+
+theorem replayKs_append (k : KsL) (a b : List Rec) : replayKs k (a ++ b) = replayKs (replayKs k a) b := by
+  simp [replayKs]
+
+/-- replaying clear-free records of this keyspace appends them to the active memtable -/
+theorem replayKs_noClear (k : KsL) (R : List Rec) (hks : ∀ r ∈ R, r.ks = k.id)
+    (hc : ∀ r ∈ R, r.op.isClear = false) : replayKs k R = { k with mem := k.mem ++ R } := by
+  induction R generalizing k with
+  | nil => simp [replayKs]
+  | cons r rs ih =>
+    simp only [replayKs, List.foldl_cons]
+    have hr := hks r (by simp)
+    have hcr := hc r (by simp)
+    have hs : stepKs r k = { k with mem := k.mem ++ [r] } := by
+      simp only [stepKs, hr, if_true, applyRec]
+      cases hop : r.op with
+      | clear => simp [hop, LOp.isClear] at hcr
+      | put _ _ => rfl
+      | del _ => rfl
+    rw [hs]
+    have := ih { k with mem := k.mem ++ [r] } (fun r' h' => hks r' (by simp [h'])) (fun r' h' => hc r' (by simp [h']))
+    simp only [replayKs] at this
+    rw [this]
+    simp
+
+theorem replayKs_clear (k : KsL) (c : Rec) (hks : c.ks = k.id) (hc : c.op = .clear) :
+    replayKs k [c] = { k with tables := [], sealedMem := [], mem := [], persisted := none } := by
+  simp [replayKs, stepKs, hks, applyRec, hc]
+
+/-- the two shapes a recovered keyspace can have -/
+theorem recover_ks_shape (k : KsL) (rk : List Rec) (hks : ∀ r ∈ rk, r.ks = k.id) (h : Cov k rk) :
+    (∃ F1a F1f Y N, replayKs { k with sealedMem := [], mem := [] } (rk.filter (above k.persisted))
+        = { k with sealedMem := [], mem := F1f ++ Y ++ N } ∧
+      (∃ A, rk = A ++ (F1a ++ F1f ++ Y ++ N) ∧
+        (A = [] ∨ ∃ A' c, A = A' ++ [c] ∧ c.op = .clear ∧ ∀ t ∈ k.tables, c.seqno ≤ t.seqno)) ∧
+      k.tables.filter (fun r => !r.ing) = F1a ++ F1f ++ Y ∧
+      (k.tables.filter (above k.persisted)).filter (fun r => !r.ing) = F1f ++ Y ∧
+      k.sealedMem ++ k.mem = Y ++ N ∧ (∀ r ∈ F1f ++ Y ++ N, above k.persisted r = true) ∧
+      (∀ r ∈ F1a ++ F1f ++ Y ++ N, r.op.isClear = false) ∧ (∀ t ∈ k.tables, ∀ m ∈ N, t.seqno < m.seqno))
+    ∨
+    (∃ F N, replayKs { k with sealedMem := [], mem := [] } (rk.filter (above k.persisted))
+        = { k with tables := [], sealedMem := [], mem := F ++ N, persisted := none } ∧
+      (∃ A, rk = A ++ (F ++ N) ∧ ∃ A' c, A = A' ++ [c] ∧ c.op = .clear) ∧
+      k.tables.filter (fun r => !r.ing) = F ∧ k.tables.filter (above k.persisted) = k.tables ∧
+      (∃ Y N', F = (F.take (F.length - Y.length)) ++ Y ∧ k.sealedMem ++ k.mem = Y ++ N' ∧ N = N') ∧
+      (∀ r ∈ F ++ N, r.op.isClear = false)) := by
+  obtain ⟨A, F1, Y, N, hrk, hF, hmem, hnc, hTN, hA⟩ := h.struct
+  have hYN : ∀ r ∈ Y ++ N, above k.persisted r = true := by
+    intro r hr; rw [← hmem] at hr; exact h.persMem r hr
+  have hsF1 : SeqSorted F1 := by
+    have : SeqSorted (A ++ (F1 ++ Y ++ N)) := hrk ▸ h.sortedJ
+    exact ((List.pairwise_append.mp ((List.pairwise_append.mp ((List.pairwise_append.mp this).2.1)).1)).1)
+  have hfilt : rk.filter (above k.persisted) = A.filter (above k.persisted) ++ (F1.filter (above k.persisted) ++ Y ++ N) := by
+    rw [hrk]
+    simp only [List.filter_append]
+    rw [filter_above_all Y _ (fun r hr => hYN r (by simp [hr])), filter_above_all N _ (fun r hr => hYN r (by simp [hr]))]
+  have hksF : ∀ r ∈ F1.filter (above k.persisted) ++ Y ++ N, r.ks = k.id := by
+    intro r hr
+    apply hks; rw [hrk]
+    simp only [List.mem_append, List.mem_filter] at hr ⊢
+    rcases hr with (⟨h1, _⟩ | h1) | h1
+    · right; left; left; exact h1
+    · right; left; right; exact h1
+    · right; right; exact h1
+  have hncF : ∀ r ∈ F1.filter (above k.persisted) ++ Y ++ N, r.op.isClear = false := by
+    intro r hr
+    apply hnc
+    simp only [List.mem_append, List.mem_filter] at hr ⊢
+    rcases hr with (⟨h1, _⟩ | h1) | h1
+    · left; left; exact h1
+    · left; right; exact h1
+    · right; exact h1
+  -- does the last clear get replayed?
+  have hcaseA : A.filter (above k.persisted) = [] ∨
+      ∃ A' c, A = A' ++ [c] ∧ c.op = .clear ∧ (∀ t ∈ k.tables, c.seqno ≤ t.seqno) ∧ above k.persisted c = true := by
+    rcases hA with rfl | ⟨A', c, rfl, hc, hct⟩
+    · left; rfl
+    · by_cases hab : above k.persisted c = true
+      · right; exact ⟨A', c, rfl, hc, hct, hab⟩
+      · left
+        apply filter_above_none
+        intro a ha
+        have hle : a.seqno ≤ c.seqno := by
+          simp only [List.mem_append, List.mem_singleton] at ha
+          rcases ha with ha | rfl
+          · have : SeqSorted ((A' ++ [c]) ++ (F1 ++ Y ++ N)) := hrk ▸ h.sortedJ
+            have := (List.pairwise_append.mp (List.pairwise_append.mp this).1).2.2
+            exact this a ha c (by simp)
+          · exact Nat.le_refl _
+        cases hx : above k.persisted a with
+        | false => rfl
+        | true => exact absurd (above_mono _ a c hle hx) hab
+  rcases hcaseA with hAe | ⟨A', c, rfl, hc, hct, hab⟩
+  · left
+    refine ⟨F1.filter (fun r => !above k.persisted r), F1.filter (above k.persisted), Y, N, ?_, ⟨A, ?_, hA⟩, ?_, ?_, hmem, ?_, ?_, hTN⟩
+    · rw [hfilt, hAe, List.nil_append, replayKs_noClear { k with sealedMem := [], mem := [] } _ hksF hncF]
+      simp
+    · rw [← sorted_split F1 _ hsF1]; exact hrk
+    · rw [← sorted_split F1 _ hsF1]; exact hF
+    · rw [List.filter_filter]
+      have : (k.tables.filter fun r => (!r.ing) && above k.persisted r) = (k.tables.filter (fun r => !r.ing)).filter (above k.persisted) := by
+        rw [List.filter_filter]; congr 1; funext r; exact Bool.and_comm _ _
+      rw [this, hF, List.filter_append, filter_above_all Y _ (fun r hr => hYN r (by simp [hr]))]
+    · intro r hr
+      simp only [List.mem_append, List.mem_filter] at hr
+      rcases hr with (⟨_, h1⟩ | h1) | h1
+      · exact h1
+      · exact hYN r (by simp [h1])
+      · exact hYN r (by simp [h1])
+    · rw [← sorted_split F1 _ hsF1]; exact hnc
+  · right
+    have hTall : ∀ t ∈ k.tables, above k.persisted t = true := fun t ht => above_mono _ c t (hct t ht) hab
+    have hF1all : F1.filter (above k.persisted) = F1 := by
+      apply filter_above_all
+      intro r hr
+      have : r ∈ k.tables.filter (fun r => !r.ing) := by rw [hF]; simp [hr]
+      exact hTall r (List.mem_filter.mp this).1
+    refine ⟨F1 ++ Y, N, ?_, ⟨A' ++ [c], by rw [hrk], A', c, rfl, hc⟩, hF, filter_above_all _ _ hTall, ⟨Y, N, by simp, hmem, rfl⟩, by simpa using hnc⟩
+    rw [hfilt, hF1all]
+    have hcab : (A' ++ [c]).filter (above k.persisted) = A'.filter (above k.persisted) ++ [c] := by
+      simp [List.filter_append, List.filter, hab]
+    rw [hcab, List.append_assoc, replayKs_append, replayKs_append]
+    have hck : c.ks = k.id := hks c (by rw [hrk]; simp)
+    have hid : (replayKs { k with sealedMem := [], mem := [] } (A'.filter (above k.persisted))).id = k.id := by
+      rw [replayKs_id]
+    rw [replayKs_clear _ c (by rw [hid]; exact hck) hc]
+    rw [replayKs_noClear _ _ (by intro r hr; rw [hF1all] at hksF; simp only [replayKs_id]; exact hksF r hr)
+      (by rw [hF1all] at hncF; exact hncF)]
+    simp only [List.nil_append]
+    -- everything but id / name is overwritten; id and name never change under replay
+    have hname : ∀ (k : KsL) (R : List Rec), (replayKs k R).name = k.name := by
+      intro k R
+      induction R generalizing k with
+      | nil => rfl
+      | cons r rs ih =>
+        simp only [replayKs, List.foldl_cons] at ih ⊢
+        rw [ih]
+        unfold stepKs applyRec
+        split
+        · cases r.op <;> rfl
+        · rfl
+    generalize hR : replayKs { k with sealedMem := [], mem := [] } (A'.filter (above k.persisted)) = R
+    have h1 : R.id = k.id := by rw [← hR, replayKs_id]
+    have h2 : R.name = k.name := by rw [← hR, hname]
+    cases R; cases k
+    simp only at h1 h2
+    simp [h1, h2]
+
+end Fjall.Db
+
+namespace Fjall.Db
+open Fjall Fjall.Spec
+
+@[simp] theorem opsOf_append (a b : List Rec) : opsOf (a ++ b) = opsOf a ++ opsOf b := by simp [opsOf]
+@[simp] theorem opsOf_nil : opsOf [] = [] := rfl
+
+theorem opsOf_noClear (L : List Rec) (h : ∀ r ∈ L, r.op.isClear = false) : ∀ op ∈ opsOf L, op.isClear = false := by
+  intro op hop
+  obtain ⟨r, hr, rfl⟩ := List.mem_map.mp hop
+  exact h r hr
+
+theorem keepsDels (k : KsL) (rk : List Rec) (h : Cov k rk) (L : List Rec) (hL : ∀ r ∈ L, r ∈ k.tables) :
+    ∀ r ∈ L, r.op.isDel = true → (fun (r : Rec) => !r.ing) r = true := by
+  intro r hr hd
+  cases hi : r.ing with
+  | false => simp [hi]
+  | true => have := h.ingPut r (hL r hr) hi; rw [this] at hd; exact absurd hd (by simp)
+
+theorem lastOn_case1 (x : Key) (T1 T2 F Y N : List LOp) (hD : lastOn x (T2 ++ (F ++ Y)) = lastOn x T2) :
+    lastOn x ((T1 ++ T2) ++ (F ++ Y ++ N)) = lastOn x ((T1 ++ T2) ++ (Y ++ N)) := by
+  simp only [lastOn_append] at hD ⊢
+  generalize lastOn x N = a at hD ⊢
+  generalize lastOn x Y = b at hD ⊢
+  generalize lastOn x F = c at hD ⊢
+  generalize lastOn x T2 = d at hD ⊢
+  generalize lastOn x T1 = e at hD ⊢
+  cases a <;> cases b <;> cases c <;> cases d <;> simp_all
+
+theorem lastOn_case2 (x : Key) (T F0 Y N : List LOp) (s1 : ∀ v, lastOn x T ≠ some (some v))
+    (s2 : ∀ v, lastOn x (F0 ++ Y) ≠ some (some v)) :
+    (match lastOn x ((F0 ++ Y) ++ N) with | some z => z | none => none) =
+    (match lastOn x (T ++ (Y ++ N)) with | some z => z | none => none) := by
+  simp only [lastOn_append] at s2 ⊢
+  generalize lastOn x N = a at s2 ⊢
+  generalize lastOn x Y = b at s2 ⊢
+  generalize lastOn x F0 = c at s2 ⊢
+  generalize lastOn x T = d at s1 s2 ⊢
+  cases a <;> cases b <;> simp_all
+  cases c with
+  | none => cases d with
+    | none => rfl
+    | some d => cases d with
+      | none => rfl
+      | some v => exact absurd rfl (s1 v)
+  | some c => cases c with
+    | some v => exact absurd rfl (s2 v)
+    | none => cases d with
+      | none => rfl
+      | some d => cases d with
+        | none => rfl
+        | some v => exact absurd rfl (s1 v)
+
+/-- **recovery of one keyspace reproduces its content**: replaying the journal records above the
+    highest seqno found in the tables, on top of the tables -/
+theorem recover_ks_abs (k : KsL) (rk : List Rec) (hks : ∀ r ∈ rk, r.ks = k.id) (h : Cov k rk) :
+    (replayKs { k with sealedMem := [], mem := [] } (rk.filter (above k.persisted))).abs.Equiv k.abs := by
+  intro x
+  have hkabs : k.abs = applyAll [] (opsOf (k.tables ++ (k.sealedMem ++ k.mem))) := by
     simp [KsL.abs, opsOf]
-  rw [habs0, ← applyAll_append]
-  rcases hcase with ⟨A, c, hrk, hc⟩ | ⟨hnc, Z, Y1, ht, hrk⟩
-  · rw [hrk]
-    have : opsOf k.tables ++ opsOf (A ++ [c] ++ (k.tables ++ k.sealedMem ++ k.mem))
-        = (opsOf k.tables ++ opsOf A) ++ [LOp.clear] ++ opsOf (k.tables ++ k.sealedMem ++ k.mem) := by
-      simp [opsOf, hc]
-    rw [this, applyAll_after_clear, abs_eq]
-    exact KMap.Equiv.refl _
-  · rw [hrk, abs_eq, ht]
-    have e1 : opsOf (Z ++ Y1) ++ opsOf (Y1 ++ k.sealedMem ++ k.mem)
-        = opsOf Z ++ opsOf Y1 ++ (opsOf Y1 ++ opsOf (k.sealedMem ++ k.mem)) := by
-      simp [opsOf]
-    have e2 : opsOf (Z ++ Y1 ++ k.sealedMem ++ k.mem) = opsOf Z ++ opsOf Y1 ++ opsOf (k.sealedMem ++ k.mem) := by
-      simp [opsOf]
-    rw [e1, e2]
-    apply replay_idempotent
-    intro op hop
-    rw [← e2] at hop
-    obtain ⟨r, hr, rfl⟩ := List.mem_map.mp hop
-    apply hcf r
-    rw [ht]
-    simpa [List.append_assoc] using hr
+  rcases recover_ks_shape k rk hks h with ⟨F1a, F1f, Y, N, hrep, _, _, hT2, hmem, _, hnc, _⟩ | ⟨F, N, hrep, _, hF, hTall, ⟨Y, N', hFY, hmem, rfl⟩, hnc⟩
+  · rw [hrep, hkabs, hmem]
+    simp only [KsL.abs, List.append_nil]
+    have hncT := opsOf_noClear _ h.noClearT
+    have hnc1 : ∀ op ∈ opsOf (k.tables ++ (F1f ++ Y ++ N)), op.isClear = false := by
+      apply opsOf_noClear
+      intro r hr
+      simp only [List.mem_append] at hr
+      rcases hr with hr | hr
+      · exact h.noClearT r hr
+      · exact hnc r (by simp only [List.mem_append] at hr ⊢; rcases hr with (hr | hr) | hr <;> simp [hr])
+    have hnc2 : ∀ op ∈ opsOf (k.tables ++ (Y ++ N)), op.isClear = false := by
+      apply opsOf_noClear
+      intro r hr
+      simp only [List.mem_append] at hr
+      rcases hr with hr | hr
+      · exact h.noClearT r hr
+      · exact hnc r (by simp only [List.mem_append] at hr ⊢; rcases hr with hr | hr <;> simp [hr])
+    have e1 : (k.tables ++ (F1f ++ Y ++ N)).map (·.op) = opsOf (k.tables ++ (F1f ++ Y ++ N)) := rfl
+    rw [e1, applyAll_get _ _ hnc1 x, applyAll_get _ _ hnc2 x]
+    -- split the tables at the persisted seqno
+    have hsplit := sorted_split k.tables k.persisted h.sortedT
+    have hD := lastOn_refilter (k.tables.filter (above k.persisted)) (fun r => !r.ing) x
+      (keepsDels k rk h _ (fun r hr => (List.mem_filter.mp hr).1)) h.phys
+    rw [hT2] at hD
+    rw [hsplit]
+    simp only [opsOf_append] at hD ⊢
+    rw [lastOn_case1 x _ _ _ _ _ hD]
+  · rw [hrep, hkabs, hmem]
+    simp only [KsL.abs, List.append_nil, List.nil_append]
+    have hnc1 : ∀ op ∈ opsOf (F ++ N), op.isClear = false := opsOf_noClear _ hnc
+    have hnc2 : ∀ op ∈ opsOf (k.tables ++ (Y ++ N)), op.isClear = false := by
+      apply opsOf_noClear
+      intro r hr
+      simp only [List.mem_append] at hr
+      rcases hr with hr | hr | hr
+      · exact h.noClearT r hr
+      · exact hnc r (by rw [hFY]; simp [hr])
+      · exact hnc r (by simp [hr])
+    have e1 : (F ++ N).map (·.op) = opsOf (F ++ N) := rfl
+    rw [e1, applyAll_get _ _ hnc1 x, applyAll_get _ _ hnc2 x]
+    have hphys : noLive (opsOf k.tables) = true := by
+      have := h.phys
+      simp only [KsL.physOk, hTall] at this
+      exact this
+    have hphysF : noLive (opsOf F) = true := by
+      rw [← hF]
+      exact noLive_filter _ _ (keepsDels k rk h _ (fun r hr => hr)) hphys
+    have s1 := noLive_spec _ hphys x
+    have s2 := noLive_spec _ hphysF x
+    rw [hFY] at s2 ⊢
+    simp only [opsOf_append] at s2 ⊢
+    have hg : KMap.get [] x = none := rfl
+    rw [hg]
+    exact lastOn_case2 x _ _ _ _ s1 s2
 
 end Fjall.Db
 
@@ -198,65 +629,114 @@ open Fjall Fjall.Spec
 theorem stepKs_other (r : Rec) (k : KsL) (h : r.ks ≠ k.id) : stepKs r k = k := by
   simp [stepKs, Ne.symm h]
 
+theorem physOk_nil (id : KsId) (nm : String) (sm m : List Rec) (p : Option Nat) :
+    ({ id := id, name := nm, tables := [], sealedMem := sm, mem := m, persisted := p } : KsL).physOk = true := rfl
+
+theorem cov_fresh (id : KsId) (nm : String) : Cov { id := id, name := nm } [] := by
+  refine ⟨by simp, by simp, by simp, List.Pairwise.nil, List.Pairwise.nil, by simp, by simp, by simp, rfl,
+    [], [], [], [], by simp, by simp, by simp, by simp, by simp, Or.inl rfl⟩
+
+/-- the state a keyspace is in after recovery is covered by the same journal again
+    (so any number of reopen cycles is fine) -/
+theorem cov_recovered (k : KsL) (rk : List Rec) (hks : ∀ r ∈ rk, r.ks = k.id) (h : Cov k rk) :
+    Cov (replayKs { k with sealedMem := [], mem := [] } (rk.filter (above k.persisted))) rk := by
+  rcases recover_ks_shape k rk hks h with ⟨F1a, F1f, Y, N, hrep, ⟨A, hrk, hA⟩, hF, _, hmem, hab, hnc, hTN⟩ | ⟨F, N, hrep, ⟨A, hrk, A', c, hA, hc⟩, hF, hTall, _, hnc⟩
+  · rw [hrep]
+    refine ⟨h.jr, h.noClearT, h.ingPut, h.sortedJ, h.sortedT, by simp, h.persLe, ?_, h.phys, ?_⟩
+    · simpa using hab
+    · refine ⟨A, F1a, F1f ++ Y, N, by rw [hrk]; simp, by rw [hF]; simp, by simp, ?_, hTN, hA⟩
+      intro r hr; exact hnc r (by simpa [List.append_assoc] using hr)
+  · rw [hrep]
+    refine ⟨h.jr, by simp, by simp, h.sortedJ, List.Pairwise.nil, by simp, by simp, by simp [above], rfl, ?_⟩
+    refine ⟨A, [], [], F ++ N, by rw [hrk]; simp, by simp, by simp, by simpa using hnc, by simp, Or.inr ⟨A', c, hA, hc, by simp⟩⟩
+
+theorem sorted_append_one (L : List Rec) (r : Rec) (h : SeqSorted L) (hle : ∀ x ∈ L, x.seqno ≤ r.seqno) :
+    SeqSorted (L ++ [r]) := by
+  unfold SeqSorted
+  rw [List.pairwise_append]
+  refine ⟨h, List.pairwise_singleton _ _, ?_⟩
+  intro a ha b hb
+  simp at hb; rw [hb]; exact hle a ha
+
 /-- appending a record to the journal and applying it keeps coverage -/
-theorem cov_step (k : KsL) (rk : List Rec) (r : Rec) (hr : r.ks = k.id) (h : Cov k rk) :
-    Cov (stepKs r k) (rk ++ [r]) := by
-  obtain ⟨hcf, hcase⟩ := h
-  simp only [stepKs, applyRec, hr.symm, if_true]
+theorem cov_step (k : KsL) (rk : List Rec) (r : Rec) (hr : r.ks = k.id) (hing : r.ing = false)
+    (hle : ∀ x ∈ rk, x.seqno ≤ r.seqno) (hlt : ∀ x ∈ k.sealedMem ++ k.tables, x.seqno < r.seqno)
+    (h : Cov k rk) : Cov (stepKs r k) (rk ++ [r]) := by
+  have hjr : ∀ x ∈ rk ++ [r], x.ing = false := by
+    intro x hx; simp at hx; rcases hx with hx | rfl
+    · exact h.jr x hx
+    · exact hing
+  have hsj := sorted_append_one rk r h.sortedJ hle
+  obtain ⟨A, F1, Y, N, hrk, hF, hmem, hnc, hTN, hA⟩ := h.struct
+  rw [show stepKs r k = applyRec r k from if_pos hr.symm]
+  simp only [applyRec]
+  have hput : r.op.isClear = false →
+      Cov { k with mem := k.mem ++ [r] } (rk ++ [r]) := by
+    intro hcl
+    refine ⟨hjr, h.noClearT, h.ingPut, hsj, h.sortedT, ?_, h.persLe, ?_, h.phys, ?_⟩
+    · intro s hs m hm
+      simp at hm
+      rcases hm with hm | rfl
+      · exact h.sealedLt s hs m hm
+      · exact hlt s (by simp [hs])
+    · intro m hm
+      simp only [List.mem_append, List.mem_singleton, ← List.append_assoc] at hm
+      rcases hm with hm | rfl
+      · exact h.persMem m (by simpa using hm)
+      · cases hp : k.persisted with
+        | none => rfl
+        | some p =>
+          obtain ⟨t, ht, hpt⟩ := h.persLe p hp
+          have := hlt t (by simp [ht])
+          simp only [above, decide_eq_true_eq]; omega
+    · refine ⟨A, F1, Y, N ++ [r], by rw [hrk]; simp, hF, by simp only [← List.append_assoc, hmem], ?_, ?_, hA⟩
+      · intro x hx
+        simp only [← List.append_assoc, List.mem_append, List.mem_singleton] at hx
+        rcases hx with hx | rfl
+        · exact hnc x (by simp only [List.mem_append] at hx ⊢; exact hx)
+        · exact hcl
+      · intro t ht m hm
+        simp at hm
+        rcases hm with hm | rfl
+        · exact hTN t ht m hm
+        · exact hlt t (by simp [ht])
   cases hop : r.op with
   | clear =>
-    refine ⟨by simp, Or.inl ⟨rk, r, by simp, hop⟩⟩
-  | put kk v =>
     simp only
-    refine ⟨?_, ?_⟩
-    · intro x hx
-      simp only [List.mem_append, List.mem_cons, List.mem_nil_iff, or_false] at hx
-      rcases hx with (hx | hx) | hx | rfl
-      · exact hcf x (by simp [hx])
-      · exact hcf x (by simp [hx])
-      · exact hcf x (by simp [hx])
-      · simp [hop, LOp.isClear]
-    · rcases hcase with ⟨A, c, hrk, hc⟩ | ⟨hnc, Z, Y1, ht, hrk⟩
-      · left; exact ⟨A, c, by rw [hrk]; simp, hc⟩
-      · right
-        refine ⟨?_, Z, Y1, ht, by rw [hrk]; simp⟩
-        intro x hx
-        simp only [List.mem_append, List.mem_cons, List.mem_nil_iff, or_false] at hx
-        rcases hx with hx | rfl
-        · exact hnc x hx
-        · simp [hop, LOp.isClear]
-  | del kk =>
-    simp only
-    refine ⟨?_, ?_⟩
-    · intro x hx
-      simp only [List.mem_append, List.mem_cons, List.mem_nil_iff, or_false] at hx
-      rcases hx with (hx | hx) | hx | rfl
-      · exact hcf x (by simp [hx])
-      · exact hcf x (by simp [hx])
-      · exact hcf x (by simp [hx])
-      · simp [hop, LOp.isClear]
-    · rcases hcase with ⟨A, c, hrk, hc⟩ | ⟨hnc, Z, Y1, ht, hrk⟩
-      · left; exact ⟨A, c, by rw [hrk]; simp, hc⟩
-      · right
-        refine ⟨?_, Z, Y1, ht, by rw [hrk]; simp⟩
-        intro x hx
-        simp only [List.mem_append, List.mem_cons, List.mem_nil_iff, or_false] at hx
-        rcases hx with hx | rfl
-        · exact hnc x hx
-        · simp [hop, LOp.isClear]
+    refine ⟨hjr, by simp, by simp, hsj, List.Pairwise.nil, by simp, by simp, by simp, rfl, ?_⟩
+    exact ⟨rk ++ [r], [], [], [], by simp, by simp, by simp, by simp, by simp, Or.inr ⟨rk, r, rfl, hop, by simp⟩⟩
+  | put kk v => simp only; exact hput (by simp [hop, LOp.isClear])
+  | del kk => simp only; exact hput (by simp [hop, LOp.isClear])
 
-theorem cov_replay (k : KsL) (rk : List Rec) (recs : List Rec) (h : Cov k rk) :
-    Cov (replayKs k recs) (rk ++ recs.filter fun r => r.ks = k.id) := by
+theorem stepKs_shrinks (r : Rec) (k : KsL) :
+    (∀ x ∈ (stepKs r k).sealedMem ++ (stepKs r k).tables, x ∈ k.sealedMem ++ k.tables) := by
+  unfold stepKs applyRec
+  split
+  · cases r.op <;> simp
+  · simp
+
+/-- a batch: all records carry the same seqno -/
+theorem cov_replay (k : KsL) (rk : List Rec) (recs : List Rec) (s : Nat)
+    (hs : ∀ r ∈ recs, r.seqno = s ∧ r.ing = false)
+    (hle : ∀ x ∈ rk, x.seqno ≤ s) (hlt : ∀ x ∈ k.sealedMem ++ k.tables, x.seqno < s)
+    (h : Cov k rk) : Cov (replayKs k recs) (rk ++ recs.filter fun r => r.ks = k.id) := by
   induction recs generalizing k rk with
   | nil => simpa [replayKs] using h
   | cons r rs ih =>
     simp only [replayKs, List.foldl_cons]
+    have hr1 := hs r (by simp)
+    have hs' : ∀ r ∈ rs, r.seqno = s ∧ r.ing = false := fun r' h' => hs r' (by simp [h'])
     by_cases hr : r.ks = k.id
-    · have := ih (stepKs r k) (rk ++ [r]) (cov_step k rk r hr h)
+    · have hc := cov_step k rk r hr hr1.2 (by rw [hr1.1]; exact hle) (by rw [hr1.1]; exact hlt) h
+      have := ih (stepKs r k) (rk ++ [r]) hs' (by
+          intro x hx; simp at hx; rcases hx with hx | rfl
+          · exact hle x hx
+          · rw [hr1.1]; exact Nat.le_refl _)
+        (fun x hx => hlt x (stepKs_shrinks r k x hx)) hc
       simp only [replayKs, stepKs_id] at this
       simpa [List.filter, hr] using this
     · rw [stepKs_other r k hr]
-      have := ih k rk h
+      have := ih k rk hs' hle hlt h
       simp only [replayKs] at this
       simpa [List.filter, hr] using this
 
@@ -264,34 +744,325 @@ theorem cov_rotate (k : KsL) (rk : List Rec) (h : Cov k rk) : Cov (sealMem k) rk
   unfold sealMem
   split
   · exact h
-  · obtain ⟨hcf, hcase⟩ := h
-    refine ⟨by simpa [List.append_assoc] using hcf, ?_⟩
-    rcases hcase with ⟨A, c, hrk, hc⟩ | ⟨hnc, Z, Y1, ht, hrk⟩
-    · left; exact ⟨A, c, by simpa [List.append_assoc] using hrk, hc⟩
-    · right; exact ⟨hnc, Z, Y1, ht, by simpa [List.append_assoc] using hrk⟩
+  · obtain ⟨A, F1, Y, N, hrk, hF, hmem, hnc, hTN, hA⟩ := h.struct
+    refine ⟨h.jr, h.noClearT, h.ingPut, h.sortedJ, h.sortedT, by simp, h.persLe, ?_, h.phys, ?_⟩
+    · simpa using h.persMem
+    · exact ⟨A, F1, Y, N, hrk, hF, by simpa using hmem, hnc, hTN, hA⟩
 
-theorem cov_flushSealed (k : KsL) (rk : List Rec) (_p : Option Nat) (h : Cov k rk) :
-    Cov k.flushSealed rk := by
-  unfold KsL.flushSealed
-  obtain ⟨hcf, hcase⟩ := h
-  refine ⟨by simpa [List.append_assoc] using hcf, ?_⟩
-  rcases hcase with ⟨A, c, hrk, hc⟩ | ⟨hnc, Z, Y1, ht, hrk⟩
-  · left; exact ⟨A, c, by simpa [List.append_assoc] using hrk, hc⟩
-  · right; exact ⟨hnc, Z, Y1 ++ k.sealedMem, by simp [ht, List.append_assoc], by simpa [List.append_assoc] using hrk⟩
+theorem maxSeqno_spec (L : List Rec) :
+    (L = [] ∧ maxSeqno L = none) ∨ (∃ m, maxSeqno L = some m ∧ (∀ r ∈ L, r.seqno ≤ m) ∧ ∃ r ∈ L, r.seqno = m) := by
+  have gen : ∀ (l : List Rec) (a : Nat), ∃ m,
+      l.foldl maxStep (some a) = some m ∧
+      a ≤ m ∧ (∀ r ∈ l, r.seqno ≤ m) ∧ (m = a ∨ ∃ r ∈ l, r.seqno = m) := by
+    intro l
+    induction l with
+    | nil => intro a; exact ⟨a, rfl, Nat.le_refl _, by simp, Or.inl rfl⟩
+    | cons y r ih =>
+      intro a
+      obtain ⟨m, h1, h2, h3, h4⟩ := ih (max a y.seqno)
+      refine ⟨m, by simpa [List.foldl_cons, maxStep] using h1, by omega, ?_, ?_⟩
+      · intro x hx; simp at hx; rcases hx with rfl | hx
+        · omega
+        · exact h3 x hx
+      · rcases h4 with h4 | ⟨x, hx, h5⟩
+        · by_cases hay : a ≤ y.seqno
+          · right; exact ⟨y, by simp, by omega⟩
+          · left; omega
+        · right; exact ⟨x, by simp [hx], h5⟩
+  cases L with
+  | nil => left; exact ⟨rfl, rfl⟩
+  | cons y r =>
+    right
+    obtain ⟨m, h1, h2, h3, h4⟩ := gen r y.seqno
+    refine ⟨m, by simpa [maxSeqno, List.foldl_cons, maxStep] using h1, ?_, ?_⟩
+    · intro x hx; simp at hx; rcases hx with rfl | hx
+      · exact h2
+      · exact h3 x hx
+    · rcases h4 with h4 | ⟨x, hx, h5⟩
+      · exact ⟨y, by simp, h4.symm⟩
+      · exact ⟨x, by simp [hx], h5⟩
 
-theorem cov_persisted (k : KsL) (rk : List Rec) (p : Option Nat) (h : Cov k rk) :
-    Cov { k with persisted := p } rk := h
+end Fjall.Db
 
-/-- the state a keyspace is in after recovery is covered by the same journal again
-    (so any number of reopen cycles is fine) -/
-theorem cov_recovered (k : KsL) (recs : List Rec) (h : Cov k (recs.filter fun r => r.ks = k.id)) :
-    Cov (replayKs { k with sealedMem := [], mem := [] } recs) (recs.filter fun r => r.ks = k.id) := by
-  have h0 : Cov ({ k with sealedMem := [], mem := [] } : KsL) [] := by
-    refine ⟨?_, Or.inr ⟨by simp, k.tables, [], by simp, by simp⟩⟩
-    intro r hr
-    simp at hr
-    exact h.1 r (by simp [hr])
-  have := cov_replay _ [] recs h0
-  simpa using this
+namespace Fjall.Db
+open Fjall Fjall.Spec
+
+theorem sorted_filter (L : List Rec) (q : Rec → Bool) (h : SeqSorted L) : SeqSorted (L.filter q) :=
+  List.Pairwise.sublist List.filter_sublist h
+
+theorem above_of_le (p q : Option Nat) (r : Rec)
+    (hq : ∀ a, q = some a → ∃ b, p = some b ∧ a ≤ b) (h : above p r = true) : above q r = true := by
+  cases hq' : q with
+  | none => rfl
+  | some a =>
+    obtain ⟨b, hb, hab⟩ := hq a hq'
+    rw [hb] at h
+    simp only [above, decide_eq_true_eq] at h ⊢
+    omega
+
+/-- raising the threshold keeps "no live put above it" -/
+theorem phys_raise (T : List Rec) (p p' : Option Nat) (hs : SeqSorted T)
+    (hle : ∀ r, above p' r = true → above p r = true)
+    (h : noLive (opsOf (T.filter (above p))) = true) : noLive (opsOf (T.filter (above p'))) = true := by
+  have hsp := sorted_split (T.filter (above p)) p' (sorted_filter T _ hs)
+  have e : (T.filter (above p)).filter (above p') = T.filter (above p') := by
+    rw [List.filter_filter]
+    apply List.filter_congr
+    intro r _
+    cases h1 : above p' r with
+    | false => simp
+    | true => simp [hle r h1]
+  rw [e] at hsp
+  rw [hsp, opsOf_append] at h
+  exact noLive_suffix _ _ h
+
+theorem optMax_spec (p : Option Nat) (m : Nat) :
+    ∃ q, optMax p (some m) = some q ∧ m ≤ q ∧ (∀ a, p = some a → a ≤ q) ∧ (q = m ∨ p = some q) := by
+  cases p with
+  | none => exact ⟨m, rfl, Nat.le_refl _, by simp, Or.inl rfl⟩
+  | some a =>
+    refine ⟨max a m, rfl, by omega, by intro b hb; cases hb; omega, ?_⟩
+    by_cases h : a ≤ m
+    · left; omega
+    · right; congr 1; omega
+
+theorem optMax_none (p : Option Nat) : optMax p none = p := by cases p <;> rfl
+
+theorem cov_flushSealed (k : KsL) (rk : List Rec) (h : Cov k rk) : Cov k.flushSealed rk := by
+  obtain ⟨A, F1, Y, N, hrk, hF, hmem, hnc, hTN, hA⟩ := h.struct
+  have hsj : SeqSorted (A ++ (F1 ++ Y ++ N)) := hrk ▸ h.sortedJ
+  have hsubT : ∀ r ∈ F1 ++ Y, r ∈ k.tables := by
+    intro r hr; rw [← hF] at hr; exact (List.mem_filter.mp hr).1
+  have hjrB : ∀ r ∈ F1 ++ Y ++ N, r.ing = false := by
+    intro r hr; apply h.jr; rw [hrk]; simp only [List.mem_append] at hr ⊢; right; exact hr
+  have hAc : ∀ t ∈ F1 ++ Y ++ N, (A = [] ∨ ∃ A' c, A = A' ++ [c] ∧ c.op = .clear ∧ c.seqno ≤ t.seqno) := by
+    intro t ht
+    rcases hA with rfl | ⟨A', c, rfl, hc, _⟩
+    · left; rfl
+    · right; exact ⟨A', c, rfl, hc, (List.pairwise_append.mp hsj).2.2 c (by simp) t ht⟩
+  -- persisted
+  have hpers : ∃ q, k.flushSealed.persisted = q ∧ (∀ r, above q r = true → above k.persisted r = true) ∧
+      (∀ s ∈ k.sealedMem, above q s = false) ∧
+      (∀ a, q = some a → (k.persisted = some a) ∨ ∃ s ∈ k.sealedMem, s.seqno = a) ∧
+      (∀ m, above k.persisted m = true → (∀ s ∈ k.sealedMem, s.seqno < m.seqno) → above q m = true) := by
+    simp only [KsL.flushSealed]
+    rcases maxSeqno_spec k.sealedMem with ⟨he, hm⟩ | ⟨m, hm, hall, s0, hs0, hs0m⟩
+    · rw [hm, optMax_none]
+      exact ⟨_, rfl, fun _ h => h, by rw [he]; simp, fun a ha => Or.inl ha, fun _ h _ => h⟩
+    · rw [hm]
+      obtain ⟨q, hq, hmq, hpq, hor⟩ := optMax_spec k.persisted m
+      rw [hq]
+      refine ⟨_, rfl, ?_, ?_, ?_, ?_⟩
+      · intro r hr
+        apply above_of_le (some q) k.persisted r _ hr
+        intro a ha; exact ⟨q, rfl, hpq a ha⟩
+      · intro s hs
+        have := hall s hs
+        simp only [above, decide_eq_false_iff_not]; omega
+      · intro a ha
+        cases ha
+        rcases hor with rfl | hor
+        · right; exact ⟨s0, hs0, hs0m⟩
+        · left; exact hor
+      · intro mm hab hlt
+        simp only [above, decide_eq_true_eq]
+        rcases hor with rfl | hor
+        · rw [← hs0m]; exact hlt s0 hs0
+        · rw [hor] at hab; simpa [above] using hab
+  obtain ⟨q, hq, hq1, hq2, hq3, hq4⟩ := hpers
+  -- the two cases: the sealed memtables are part of the stale tail, or contain all of it
+  rcases List.append_eq_append_iff.mp hmem with ⟨Y2, hY, hM⟩ | ⟨N1, hSM, hN⟩
+  · have hK : k.sealedMem.filter (fun r => decide (r ∉ k.tables)) = [] := by
+      simp only [List.filter_eq_nil_iff, decide_eq_true_eq, Decidable.not_not]
+      intro r hr
+      exact hsubT r (by rw [hY]; simp [hr])
+    have hT' : k.flushSealed.tables = k.tables := by
+      show k.tables ++ k.sealedMem.filter (fun r => decide (r ∉ k.tables)) = _
+      rw [hK]; simp
+    refine ⟨h.jr, by rw [hT']; exact h.noClearT, by rw [hT']; exact h.ingPut, h.sortedJ,
+      by rw [hT']; exact h.sortedT, by simp [KsL.flushSealed], ?_, ?_, ?_, ?_⟩
+    · intro a ha
+      rw [hq] at ha; rw [hT']
+      rcases hq3 a ha with hp | ⟨s, hs, rfl⟩
+      · exact h.persLe a hp
+      · exact ⟨s, hsubT s (by rw [hY]; simp [hs]), Nat.le_refl _⟩
+    · intro m hm
+      simp only [KsL.flushSealed, List.nil_append] at hm
+      rw [hq]
+      exact hq4 m (h.persMem m (by simp [hm])) (fun s hs => h.sealedLt s hs m hm)
+    · simp only [KsL.physOk, hT', hq]
+      exact phys_raise _ _ _ h.sortedT hq1 h.phys
+    · refine ⟨A, F1 ++ k.sealedMem, Y2, N, by rw [hrk, hY]; simp, by rw [hT', hF, hY]; simp,
+        by simp [KsL.flushSealed, hM], ?_, by rw [hT']; exact hTN, by rw [hT']; exact hA⟩
+      intro r hr
+      exact hnc r (by rw [hY]; simpa [List.append_assoc] using hr)
+  · have hN1T : ∀ n ∈ N1, n ∉ k.tables := by
+      intro n hn hc
+      have := hTN n hc n (by rw [hN]; simp [hn])
+      exact Nat.lt_irrefl _ this
+    have hK : k.sealedMem.filter (fun r => decide (r ∉ k.tables)) = N1 := by
+      rw [hSM, List.filter_append]
+      have e1 : Y.filter (fun r => decide (r ∉ k.tables)) = [] := by
+        simp only [List.filter_eq_nil_iff, decide_eq_true_eq, Decidable.not_not]
+        intro r hr; exact hsubT r (by simp [hr])
+      have e2 : N1.filter (fun r => decide (r ∉ k.tables)) = N1 := by
+        simp only [List.filter_eq_self, decide_eq_true_eq]; exact hN1T
+      rw [e1, e2]; rfl
+    have hT' : k.flushSealed.tables = k.tables ++ N1 := by
+      show k.tables ++ k.sealedMem.filter (fun r => decide (r ∉ k.tables)) = _
+      rw [hK]
+    have hN1B : ∀ n ∈ N1, n ∈ F1 ++ Y ++ N := by intro n hn; rw [hN]; simp [hn]
+    have hsN1 : SeqSorted N1 := by
+      have h1 := (List.pairwise_append.mp hsj).2.1
+      have h2 := (List.pairwise_append.mp h1).2.1
+      rw [hN] at h2
+      exact (List.pairwise_append.mp h2).1
+    refine ⟨h.jr, ?_, ?_, h.sortedJ, ?_, by simp [KsL.flushSealed], ?_, ?_, ?_, ?_⟩
+    · rw [hT']; intro r hr; simp only [List.mem_append] at hr
+      rcases hr with hr | hr
+      · exact h.noClearT r hr
+      · exact hnc r (hN1B r hr)
+    · rw [hT']; intro r hr hi; simp only [List.mem_append] at hr
+      rcases hr with hr | hr
+      · exact h.ingPut r hr hi
+      · rw [hjrB r (hN1B r hr)] at hi; exact absurd hi (by simp)
+    · rw [hT']; unfold SeqSorted; rw [List.pairwise_append]
+      exact ⟨h.sortedT, hsN1, fun t ht n hn => Nat.le_of_lt (hTN t ht n (by rw [hN]; simp [hn]))⟩
+    · intro a ha
+      rw [hq] at ha; rw [hT']
+      rcases hq3 a ha with hp | ⟨s, hs, rfl⟩
+      · obtain ⟨t, ht, hle⟩ := h.persLe a hp; exact ⟨t, by simp [ht], hle⟩
+      · rw [hSM] at hs; simp only [List.mem_append] at hs
+        rcases hs with hs | hs
+        · exact ⟨s, by simp [hsubT s (by simp [hs])], Nat.le_refl _⟩
+        · exact ⟨s, by simp [hs], Nat.le_refl _⟩
+    · intro m hm
+      simp only [KsL.flushSealed, List.nil_append] at hm
+      rw [hq]
+      exact hq4 m (h.persMem m (by simp [hm])) (fun s hs => h.sealedLt s hs m hm)
+    · simp only [KsL.physOk, hT', hq]
+      have : (k.tables ++ N1).filter (above q) = k.tables.filter (above q) := by
+        rw [List.filter_append]
+        have : N1.filter (above q) = [] := by
+          apply filter_above_none
+          intro n hn; exact hq2 n (by rw [hSM]; simp [hn])
+        rw [this]; simp
+      rw [this]
+      exact phys_raise _ _ _ h.sortedT hq1 h.phys
+    · refine ⟨A, F1 ++ Y ++ N1, [], k.mem, by rw [hrk, hN]; simp, ?_, by simp [KsL.flushSealed], ?_, ?_, ?_⟩
+      · rw [hT', List.filter_append, hF]
+        have : N1.filter (fun r => !r.ing) = N1 := by
+          simp only [List.filter_eq_self]; intro n hn; simp [hjrB n (hN1B n hn)]
+        rw [this]; simp
+      · intro r hr; exact hnc r (by rw [hN]; simpa [List.append_assoc] using hr)
+      · rw [hT']; intro t ht m hm; simp only [List.mem_append] at ht
+        rcases ht with ht | ht
+        · exact hTN t ht m (by rw [hN]; simp [hm])
+        · exact h.sealedLt t (by rw [hSM]; simp [ht]) m hm
+      · rw [hT']
+        rcases hA with rfl | ⟨A', c, rfl, hc, hct⟩
+        · left; rfl
+        · right
+          refine ⟨A', c, rfl, hc, ?_⟩
+          intro t ht; simp only [List.mem_append] at ht
+          rcases ht with ht | ht
+          · exact hct t ht
+          · rcases hAc t (hN1B t ht) with he | ⟨A'', c', he, _, hle⟩
+            · simp at he
+            · have := List.append_inj_right' he (by simp)
+              simp at this; rw [this]; exact hle
+
+/-- lowering the observed highest persisted seqno (tombstones were evicted) -/
+theorem cov_setPersisted (k : KsL) (rk : List Rec) (q : Option Nat) (h : Cov k rk)
+    (hq : ∀ a, q = some a → ∃ b, k.persisted = some b ∧ a ≤ b)
+    (hphys : ({ k with persisted := q } : KsL).physOk = true) : Cov { k with persisted := q } rk := by
+  refine ⟨h.jr, h.noClearT, h.ingPut, h.sortedJ, h.sortedT, h.sealedLt, ?_, ?_, hphys, h.struct⟩
+  · intro a ha
+    obtain ⟨b, hb, hab⟩ := hq a ha
+    obtain ⟨t, ht, hle⟩ := h.persLe b hb
+    exact ⟨t, ht, by omega⟩
+  · intro m hm
+    exact above_of_le k.persisted q m hq (h.persMem m hm)
+
+theorem cov_lower (k : KsL) (rk : List Rec) (v : Option Nat) (h : Cov k rk)
+    (hphys : (k.lowerPersisted v).physOk = true) : Cov (k.lowerPersisted v) rk := by
+  unfold KsL.lowerPersisted at hphys ⊢
+  split
+  · rename_i p x hp
+    split
+    · rename_i hx
+      simp only [hp, hx, if_true] at hphys
+      exact cov_setPersisted k rk (some x) h (by intro a ha; cases ha; exact ⟨_, hp, hx⟩) hphys
+    · exact h
+  · rename_i p hp
+    simp only [hp] at hphys
+    exact cov_setPersisted k rk none h (by simp) hphys
+  · exact h
+
+theorem pairwise_const (L : List Rec) (g : Nat) (h : ∀ r ∈ L, r.seqno = g) : SeqSorted L := by
+  induction L with
+  | nil => exact List.Pairwise.nil
+  | cons a r ih =>
+    refine List.Pairwise.cons ?_ (ih fun x hx => h x (by simp [hx]))
+    intro b hb
+    rw [h a (by simp), h b (by simp [hb])]
+    exact Nat.le_refl _
+
+/-- bulk ingestion of values into a keyspace whose memtables were just flushed -/
+theorem cov_ingest (k : KsL) (rk : List Rec) (recs : List Rec) (g : Nat) (h : Cov k rk)
+    (hsm : k.sealedMem = []) (hm : k.mem = []) (hne : recs ≠ [])
+    (hrecs : ∀ r ∈ recs, r.seqno = g ∧ r.ing = true ∧ r.op.isDel = false ∧ r.op.isClear = false)
+    (hg : ∀ t ∈ k.tables, t.seqno < g) (hgj : ∀ r ∈ rk, r.seqno ≤ g) :
+    Cov { k with tables := k.tables ++ recs, persisted := optMax k.persisted (some g) } rk := by
+  obtain ⟨A, F1, Y, N, hrk, hF, hmem, hnc, hTN, hA⟩ := h.struct
+  rw [hsm, hm] at hmem
+  have hY : Y = [] := by cases Y <;> simp_all
+  have hN : N = [] := by cases N <;> simp_all
+  subst hY; subst hN
+  obtain ⟨q, hq, hgq, hpq, hor⟩ := optMax_spec k.persisted g
+  have hqg : q = g := by
+    rcases hor with h1 | h1
+    · exact h1
+    · obtain ⟨t, ht, hle⟩ := h.persLe q h1
+      have := hg t ht
+      omega
+  obtain ⟨r0, hr0⟩ := List.exists_mem_of_ne_nil recs hne
+  refine ⟨h.jr, ?_, ?_, h.sortedJ, ?_, by simp [hsm], ?_, by simp [hsm, hm], ?_, ?_⟩
+  · intro r hr; simp only [List.mem_append] at hr
+    rcases hr with hr | hr
+    · exact h.noClearT r hr
+    · exact (hrecs r hr).2.2.2
+  · intro r hr hi; simp only [List.mem_append] at hr
+    rcases hr with hr | hr
+    · exact h.ingPut r hr hi
+    · exact (hrecs r hr).2.2.1
+  · unfold SeqSorted; rw [List.pairwise_append]
+    refine ⟨h.sortedT, pairwise_const recs g (fun r hr => (hrecs r hr).1), ?_⟩
+    intro t ht r hr; rw [(hrecs r hr).1]; exact Nat.le_of_lt (hg t ht)
+  · intro a ha
+    simp only [hq] at ha; cases ha
+    exact ⟨r0, by simp [hr0], by rw [(hrecs r0 hr0).1, hqg]; exact Nat.le_refl _⟩
+  · simp only [KsL.physOk, hq]
+    have : (k.tables ++ recs).filter (above (some q)) = [] := by
+      apply filter_above_none
+      intro r hr; simp only [List.mem_append] at hr
+      simp only [above, decide_eq_false_iff_not]
+      rcases hr with hr | hr
+      · have := hg r hr; omega
+      · rw [(hrecs r hr).1]; omega
+    rw [this]; rfl
+  · refine ⟨A, F1, [], [], hrk, ?_, by simp [hsm, hm], hnc, by simp, ?_⟩
+    · rw [List.filter_append, hF]
+      have : recs.filter (fun r => !r.ing) = [] := by
+        simp only [List.filter_eq_nil_iff]; intro r hr; simp [(hrecs r hr).2.1]
+      rw [this]; simp
+    · rcases hA with rfl | ⟨A', c, rfl, hc, hct⟩
+      · left; rfl
+      · right
+        refine ⟨A', c, rfl, hc, ?_⟩
+        intro t ht; simp only [List.mem_append] at ht
+        rcases ht with ht | ht
+        · exact hct t ht
+        · rw [(hrecs t ht).1]; exact hgj c (by rw [hrk]; simp)
 
 end Fjall.Db
